@@ -91,6 +91,6 @@ def queries(ctx):
                 unwindset=("snoopy_message_generateFromFormat.0:3", "reference.3:3"), timeout=300, mem_gb=6,
                 bounds="formats '%{c}', 'c%{c', '%{f:c}', '%{a:c}' with c='q' (concrete: decides only that the REAL error-text literals are the documented ones); L=80, D=3"))
     qs.append(sym_query(8 if not thorough else 9, 6, 2, tagbuf=True))
-    qs.append(tmpl_query("%{?:??}?%{?:?}?", 8, 2))
+    qs.append(tmpl_query("%{?:??}?%{?:?}?", 8, 2, mem=10))
     qs.append(tmpl_query("?%{?}%{?}%{?:?}", 9, 1, mem=10))
     return qs
